@@ -128,3 +128,11 @@ func Gate(point string, kv ...interface{}) {
 		f.(func(kv ...interface{}))(kv...)
 	}
 }
+
+// Pick returns a if cond holds and b otherwise.
+func Pick(cond bool, a, b string) string {
+	if cond {
+		return a
+	}
+	return b
+}
